@@ -45,6 +45,12 @@ type Family interface {
 	Rand(n int, rng *rand.Rand, emit func(cas any)) error
 }
 
+// BatchFamily is implemented by families that must see all cases at once (e.g. to materialise many
+// cases into one Go module that is loaded once).
+type BatchFamily interface {
+	ExecAll(cases []CaseIn, seed int64, emit func(c CaseIn, cas, conc, obs any)) error
+}
+
 var Families = map[string]Family{}
 
 func Register(name string, f Family) { Families[name] = f }
